@@ -161,9 +161,27 @@ def gen_case(rng):
         backend = "gaussian"  # the Fock backend has no heterodyne measurement
     if any(c["op"] == "MeasureFock" for c in cmds):
         backend = "gaussian"
+    pipeline = str(rng.choice(["run", "run", "optimize", "compile", "segments"]))
+    if pipeline == "segments":
+        # (the bosonic backend re-initialises its simulator for every segment: recorded finding under C08 / C09)
+        backend = "gaussian" if backend == "bosonic" else backend
+        binding_mode = "args"
+    cuts = None
+    if pipeline == "segments" and n >= 2:
+        # measure a subsystem, (next segment) re-prepare and measure it again, (next segment) use its outcome elsewhere
+        a_, b_ = (int(x) for x in rng.choice(n, 2, replace=False))
+        base = len(cmds)
+        cmds.append({"op": "MeasureHomodyne", "p": [0.0], "m": [a_]})
+        cmds.append({"op": "Coherent", "p": [0.2, 0.3], "m": [a_]})
+        cmds.append({"op": "MeasureHomodyne", "p": [0.5], "m": [a_]})
+        cmds.append({"op": str(rng.choice(["Xgate", "Zgate", "Rgate"])), "p": [0.1], "m": [b_], "dag": False,
+                     "expr": {"pos": 0, "f": "id" if "id" in FUNCS else list(FUNCS)[0], "args": [{"kind": "meas", "mode": a_}]}})
+        cuts = [base + 1, base + 3]
     case = {"n": n, "cmds": cmds, "free": free, "binding": binding_mode,
-            "pipeline": str(rng.choice(["run", "run", "optimize", "compile"])),
+            "pipeline": pipeline,
             "backend": backend}
+    if cuts:
+        case["cuts"] = cuts
     if backend != "fock" and rng.random() < 0.25:
         # same program on a sparse, unordered choice of subsystems of a larger register (measured parameters of
         # subsystems with two-digit indices, q10.par vs q1.par)
@@ -177,14 +195,31 @@ def gen_case(rng):
 
 def build(env, case, symbolic):
     """Symbolic program or its numeric twin."""
+    return build_chain(env, case, symbolic, [])[0]
+
+
+def build_chain(env, case, symbolic, cuts):
+    """The program split into consecutive segments at the command indices in `cuts` (each segment a Program built on its
+    predecessor); outcome bookkeeping of the numeric twin runs across the segments."""
     sf, ops = env["sf"], env["ops"]
     emb = case.get("embed") or list(range(case["n"]))
-    prog = sf.Program(case.get("N", case["n"]))
     occ = {}
     last_fock = set()
-    with prog.context as q_:
-        q = [q_[i] for i in emb]
-        for c in case["cmds"]:
+    bounds = [0] + sorted(cuts) + [len(case["cmds"])]
+    progs = []
+    for a_, b_ in zip(bounds, bounds[1:]):
+        prog = sf.Program(progs[-1] if progs else case.get("N", case["n"]))
+        with prog.context as q_:
+            q = [prog.reg_refs[i] for i in emb]
+            _emit(env, case, symbolic, prog, q, emb, occ, last_fock, case["cmds"][a_:b_])
+        progs.append(prog)
+    return progs
+
+
+def _emit(env, case, symbolic, prog, q, emb, occ, last_fock, cmds):
+    sf, ops = env["sf"], env["ops"]
+    if True:
+        for c in cmds:
             if c["op"] == "MeasureFock":
                 ops.MeasureFock() | tuple(q[m] for m in c["m"])
                 for m in c["m"]:
@@ -236,7 +271,6 @@ def build(env, case, symbolic):
                 op = op.H
             regs = tuple(q[i] for i in c["m"])
             op | (regs if len(regs) > 1 else regs[0])
-    return prog
 
 
 class Scripted:
@@ -312,6 +346,28 @@ def execute(env, case, prog, symbolic):
             if k in prog.free_params:
                 prog.free_params[k].default = v
         args = {}
+    if case["pipeline"] == "segments":
+        # the symbolic program is run as 2-3 consecutive segments on one engine (list form or one call per segment); the
+        # numeric twin stays one program: a measured parameter must evaluate to the latest outcome of its mode, whichever
+        # segment that measurement was made in (re-measurements in later segments included)
+        ncmd = len(case["cmds"])
+        cuts = case.get("cuts") or sorted({int(x) for x in np.random.default_rng(ncmd * 7919 + len(case["free"])).integers(1, max(2, ncmd), size=2)})
+        if symbolic and ncmd >= 2:
+            with Scripted(env) as sc:
+                eng = sf.Engine(backend, backend_options=conf)
+                try:
+                    chain = build_chain(env, case, True, cuts)
+                    a = {k: v for k, v in args.items()}
+                    if ncmd % 2 and not a:
+                        eng.run(chain)
+                    else:
+                        for pr in chain:
+                            eng.run(pr, args={k: v for k, v in a.items() if k in pr.free_params})
+                    snap = env["simrun"].Snap(eng.backend)
+                except Exception as e:
+                    return e, sc.stream
+            st = (snap.dm.copy(),) if snap.kind == "fock" else ((np.array(snap.w), np.array(snap.ms), np.array(snap.cs)) if snap.kind == "bosonic" else (snap.mu.copy(), snap.V.copy()))
+            return st, sc.stream
     with Scripted(env) as sc:
         eng = sf.Engine(backend, backend_options=conf)
         try:
